@@ -126,6 +126,7 @@ class Result:
         self.known_hits = []         # oracle failures matching a known finding (filled by check)
         self.traces_validated = 0
         self.notes = []
+        self.advisories = []         # findings about code OUTSIDE the property's text (extensions of the model): never affect the exit code
 
     def count(self, key, n=1):
         self.distribution[key] = self.distribution.get(key, 0) + n
@@ -139,6 +140,13 @@ class Result:
             self.disagreements.append({"where": where, "case": case, "impl": impl, "model": model, "signature": signature})
         else:
             self.count("disagreements_dropped")
+
+    def advise(self, what, case=None, observed=None, required=None, signature=None):
+        """record a finding that concerns behaviour outside the property's text (an extension of the model beyond the property):
+        it is printed and written into the evidence, but never makes the check fail"""
+        if len(self.advisories) < 20:
+            self.advisories.append({"what": what, "case": case, "observed": observed, "required": required, "signature": signature or what})
+        self.count("advisory." + (signature or what)[:60])
 
     def fail(self, what, case, observed, required, signature=None):
         if len(self.oracle_failures) < 50:
